@@ -11,7 +11,7 @@ use futures::{AsyncRead, AsyncWrite, FutureExt};
 use libp2p_core::{InboundUpgrade, verif_clock::Instant};
 use libp2p_identity::PeerId;
 
-pub use crate::{handler::HandlerEvent, protocol::GossipsubCodec};
+pub use crate::{config::TopicMeshConfig, handler::HandlerEvent, protocol::GossipsubCodec};
 use crate::{
     Behaviour, Config, DataTransform, MessageId, PublishError, RawMessage, TopicHash,
     TopicSubscriptionFilter, ValidationError,
